@@ -134,7 +134,7 @@ def post(t, op, st):
         exp = p_prev + 100.0 * pnl / n_now
     else:
         exp = p_prev if abs(pnl) < 1e-16 else None
-    if exp is not None and not ref.near(s1[root]["price"], exp, 100.0):
+    if exp is not None and bool(r.fixed_income) and not ref.near(s1[root]["price"], exp, 100.0):  # (a market-value root has the multiplicative index, C03)
         out.append({"rule": "additive_index", "expected": {"price": exp, "prev_price": p_prev, "pnl": pnl, "prev_notional": n_prev, "notional": n_now}, "observed": s1[root]["price"]})
     # rebalance(weight, child, base) on a par-weighted child: notional = weight x base, whatever
     # was pending when it was called
@@ -170,11 +170,11 @@ def post(t, op, st):
                 continue
             if c["kind"] == "S" and (cname not in s0 or abs(s0[cname]["notl"]) < 1e-12):
                 continue  # a sub-strategy without positions has no child weights to spread notional by
-            if abs(c["notl"] - tgt) > tol:
+            if not (abs(c["notl"] - tgt) <= tol):
                 out.append({"rule": "rebalance_to_notional", "expected": {"child": cname, "notional": tgt, "base": base, "weight": w}, "observed": c["notl"]})
         for cname in s1[pname]["children"]:
             c = s1[cname]
-            if c["name"] not in op[2]["weights"] and abs(c["notl"]) > ref.tol(scale) and c["kind"] == "X":
+            if c["name"] not in op[2]["weights"] and not (abs(c["notl"]) <= ref.tol(scale)) and c["kind"] == "X":
                 out.append({"rule": "non_target_closed", "expected": {"child": cname, "notional": 0.0}, "observed": c["notl"]})
     return out
 
@@ -213,7 +213,7 @@ def fi_run_case(spec):
     ad = {"coupons": coupons, "cost_long": cl, "cost_short": cs, "notional": notional}
     if spec.get("spread") is not None:
         ad["bidoffer"] = pd.DataFrame(float(spec["spread"]), index=idx, columns=data.columns)
-    b = bt.Backtest(s, data, initial_capital=0.0, commissions=T.fee_fn(spec.get("fee")), integer_positions=bool(spec.get("integer", False)), progress_bar=False, additional_data=ad)
+    b = bt.Backtest(s, data, initial_capital=float(spec.get("capital", 0.0)), commissions=T.fee_fn(spec.get("fee")), integer_positions=bool(spec.get("integer", False)), progress_bar=False, additional_data=ad)
     viols = []
     try:
         b.run()
@@ -278,6 +278,8 @@ def fi_specs(tier):
         for nt, gaps in (([64.0, 64.0, 0.0, 0.0, 32.0, 32.0, 0.0, 64.0], None), ([64.0, 128.0, 128.0, 0.0, 32.0, 32.0, 64.0, 64.0], [2, 5]), ([64.0, 64.0, 128.0, 128.0, 32.0, 32.0, 64.0, 64.0], [1, 4])):
             for fee, spread in ((None, None), ("prop", 0.25)):
                 out.append({"weights": w, "notional": nt, "notional_gaps": gaps, "gate": "daily", "fee": fee, "spread": spread, "integer": False, "norm": 64.0})
+    # a book that is also funded with capital (a flow on the first date)
+    out += [dict(s, capital=256.0) for s in out[::5]]
     if tier != "quick":
         out += [dict(s, alpha="decimal", norm=37.5) for s in out[::2]]
     return out
@@ -308,6 +310,8 @@ def run(ctx):
     plan.append(("F1", variants[ctx.seed % 2], 2, "zero"))
     plan.append(("F1", dict(variants[(ctx.seed + 1) % 4], carry="short_only" if ctx.seed % 2 == 0 else "long_only"), 2, "exact"))
     plan.append(("F1", variants[1 + (ctx.seed % 2) * 2], 2, "flatspell"))
+    # a coupon-paying security marked to market (fixed_income=False) under an ordinary strategy: par notional all the same
+    plan.append(("MC", variants[(ctx.seed + 1) % 2], 2, "exact"))
     for shape, v, depth, al in plan:
         spec = dict(v, shape=shape, alpha=al, capital=64.0, ndates=4)
         if al == "flatspell":
@@ -320,7 +324,12 @@ def run(ctx):
             spec["alpha"] = "exact"
             spec["prices"] = {"c": [1.0, 0.0, 1.5, 0.5], "h": [2.0, 0.0, 2.0, 1.0]}
             spec["preops"] = [["transact", [], "c", 8.0], ["transact", [], "h", 2.0], ["next"]]
-        ops = alpha.fi_ops(shape)
+        if shape == "MC":
+            from . import _ledger_run
+
+            ops = _ledger_run.ops_for("C17", "MC", spec)
+        else:
+            ops = alpha.fi_ops(shape)
         for kind in kinds:
             bfs.search(ctx, kind, MOD, spec, ops, depth if kind == "py" else max(2, depth - 1), label="%s/%s/%s/%s" % (shape, al, "int" if v["integer"] else "frac", kind))
     specs = fi_specs(ctx.tier)
